@@ -87,6 +87,9 @@ def pure_level(report, tier, prefix="C04"):
 # ---------------------------------------------------------------- (b) font level -------
 def art(i, vb=100):
     x = 4 + 4.5 * i
+    if i % 3 == 1:  # an unrelated shape: the bars are congruent and share one outline, these do not join that group
+        return (f'<svg xmlns="http://www.w3.org/2000/svg" viewBox="0 0 {vb} {vb}"><defs/>'
+                f'<path d="M{x},10 L{x + 3.5},{40 + i} L{x + 1},90 L{x},{60 - i} Z" fill="{COLORS[i]}"/></svg>')
     return (f'<svg xmlns="http://www.w3.org/2000/svg" viewBox="0 0 {vb} {vb}"><defs/>'
             f'<path d="M{x},10 L{x + 3.5},10 L{x + 3.5},90 L{x},90 Z" fill="{COLORS[i]}"/></svg>')
 
@@ -357,7 +360,7 @@ def run(report, tier, only=None):
                     for style in ("emoji_u", "dash"):
                         cases.append({"kind": "set", "members": [a, b], "fmt": fmt, "keep": keep, "style": style})
         triples = list(itertools.combinations(range(n), 3))
-        tf = ["glyf_colr_1", "picosvg", "cbdt"] if tier == "thorough" else ["glyf_colr_1"]
+        tf = ["glyf_colr_1", "picosvg", "cbdt"] if tier == "thorough" else ["glyf_colr_1", "picosvg"]
         if tier != "thorough":
             # quick: the triples that contain a prefix pair, the collision pair or the long name
             special = {2, 3, 4, 6, 14, 15, 19}
